@@ -37,6 +37,14 @@ def oracle(ctx):
                         continue
                     if val is None:
                         ctx.oracle_fail(f"non-null range [{lo!r},{hi!r}] decoded to a null (null stand-in {nm!r})", case, "null"); continue
+                    if isinstance(cv, RealConvertor) and "df" in t:
+                        # the column's values need this many decimal places (shortest repr); rounding to fewer cannot return them
+                        from decimal import Decimal
+                        col = t["df"].iloc[:, comb[j]].dropna()
+                        need = max([max(0, -Decimal(repr(float(v))).as_tuple().exponent) for v in col.unique()[:200]] + [0])
+                        if cv.round_precision < need:
+                            ctx.oracle_fail(f"real column rounded to {cv.round_precision} decimal places although its values need {need}: released values "
+                                            f"cannot lie at their original precision", dict(case0, column=j), "round-precision")
                     if isinstance(cv, StringConvertor):
                         vm = cv.value_map; n = len(vm)
                         # hypothesis of C11_mask_prefix_covers_range: the value map is strictly increasing by code points
@@ -82,6 +90,7 @@ def oracle(ctx):
 def run(ctx, built):
     ES.stream_micro(ctx, built, ctx.scale(30, 400), oracle(ctx))
     ES.stream_micro_synth(ctx, built, ctx.scale(250, 4000), oracle(ctx))
+    ES.stream_micro_refit(ctx, built, ctx.scale(10, 120), oracle(ctx))
 
 
 def search(ctx, seeds):
